@@ -85,12 +85,22 @@ static int cmp_cb(const void * a, const void * b, void * priv)
     }
 }
 
+static int g_swapmode;
 static void swap_cb(void * a, void * b, void * t, size_t len)
 {
     const long long i = idx_of(a), j = idx_of(b);
     if (t != (void *)g_scratch || len != g_size || i < 0 || j < 0) g_bad = 1;
     logev(1, (t != (void *)g_scratch || len != g_size) ? -9 : i, j);
-    cstl_swap(a, b, t, len);
+    if (g_swapmode) {
+        /* header `swapmode 1`: a caller's swap that works in place and ignores the scratch ("the callee is free to
+         * ignore the t and len parameters"); like many in-place exchanges it is only correct for two DISTINCT objects.
+         * The raw-array calls then pass NULL as scratch: the library itself must not touch it. */
+        unsigned char * x = a, * y = b;
+        size_t k;
+        for (k = 0; k < g_size; k++) { x[k] ^= y[k]; y[k] ^= x[k]; x[k] ^= y[k]; }
+    } else {
+        cstl_swap(a, b, t, len);
+    }
 }
 
 /* rand() replacement */
@@ -254,7 +264,7 @@ static void run_case(const struct h_case * c)
     size_t es = 4, vcap = 0;
     int i, k;
 
-    nkeys = 0; g_cmpmode = 1; g_cmpcalls = 0;
+    nkeys = 0; g_cmpmode = 1; g_cmpcalls = 0; g_swapmode = 0;
     for (i = 0; i < c->nlines; i++) {
         const struct h_line * l = &c->lines[i];
         const char * op = l->w[0];
@@ -267,6 +277,7 @@ static void run_case(const struct h_case * c)
         if (h_weq(l, 0, "esize")) { es = (size_t)h_u64(l, 1); continue; }
         if (h_weq(l, 0, "vcap")) { vcap = (size_t)h_u64(l, 1); continue; }
         if (h_weq(l, 0, "cmpmode")) { g_cmpmode = (int)h_int(l, 1); continue; }
+        if (h_weq(l, 0, "swapmode")) { g_swapmode = (int)h_int(l, 1); continue; }
         if (h_weq(l, 0, "arr")) {
             for (k = 1; k < l->nw; k++) {
                 if (nkeys == keys_cap) {
@@ -296,8 +307,12 @@ static void run_case(const struct h_case * c)
             g_scratch = arr ? arr + cstl_vector_capacity(&v) * es : NULL;
         } else {
             arr = malloc(n * es);
-            g_scratch = malloc(es);
-            memset(g_scratch, 0xEE, es);
+            if (g_swapmode) {
+                g_scratch = NULL;
+            } else {
+                g_scratch = malloc(es);
+                memset(g_scratch, 0xEE, es);
+            }
         }
         for (k = 0; k < (int)n; k++) put_elem(arr + (size_t)k * es, es, keys[k], (size_t)k);
         g_base = arr; g_count = n; g_size = es; g_bad = 0; g_nlog = 0;
